@@ -142,6 +142,34 @@ func checkC01(c *hx.Ctx) {
 				histString(F), histString(L), kL, kLF), replay)
 			return
 		}
+		// the same operations with a PRNG-chosen part of them handed over with the resolution request (WithAdditionalOperations)
+		// instead of coming from the store - typically the owner's own, earlier anchored ones next to later forgeries in the store
+		if i%4 == 2 {
+			allPub := true
+			for _, o := range all {
+				allPub = allPub && o.Published()
+			}
+			if allPub {
+				split := make([]int, len(all))
+				nAdd := 0
+				for k, o := range all {
+					if o.Authorised && r.Chance(1, 2) || !o.Authorised && r.Chance(1, 6) {
+						split[k] = 1
+						nAdd++
+					}
+				}
+				if nAdd > 0 && nAdd < len(all) {
+					rmS, errS := SUTResolveSplit(pc, ch.U.Suffix, all, nil, split)
+					if kS := rmKey(rmS, errS); kS != kL {
+						replay["resolve_L"], replay["resolve_split"], replay["additional_operations"] = kL, kS, split
+						c.Violation(fmt.Sprintf("C01 unauthorised operations changed the resolution result when part of the operations is supplied with the request (additional operations %v): forged=[%s] legit=[%s]\n   Resolve(L):                %s\n   Resolve(L+F, partly additional): %s",
+							split, histString(F), histString(L), kL, kS), replay)
+						return
+					}
+					c.Count("resolutions_with_additional_operations")
+				}
+			}
+		}
 		st, merr := ref.Resolve(L, ref.ResolveOpts{})
 		if km := stKey(st, merr); km != kL {
 			replay["model"], replay["resolve_L"] = km, kL
@@ -285,6 +313,7 @@ func checkC01(c *hx.Ctx) {
 	c01ThroughPipeline(c)
 	c.Floor("pipeline_runs_with_stranger_operations_in_the_owners_batch", 20)
 	c.Floor("pipeline_runs_with_unprocessable_neighbour_transactions", 20)
+	c.Floor("resolutions_with_additional_operations", 200)
 	c.Floor("exhaustive_placements", 5000)
 	c.Floor("rebuilt_store_histories_through_one_processor", 100)
 	c.Floor("histories_crossing_the_genesis_of_a_stricter_version", 100)
